@@ -114,10 +114,10 @@ func c16Units(ctx *core.Ctx) []core.Unit {
 		f      func(b []byte) (fr.Element, error)
 	}
 	decs := []dec{
-		{"fr.Element.SetBytes", false, false, false, func(b []byte) (fr.Element, error) { var e fr.Element; e.SetBytes(b); return e, nil }},
-		{"fr.Element.SetBytesLE", true, false, false, func(b []byte) (fr.Element, error) { var e fr.Element; e.SetBytesLE(b); return e, nil }},
+		{"fr.Element.SetBytes", false, false, false, func(b []byte) (fr.Element, error) { e := dirtyFr(); e.SetBytes(b); return e, nil }},
+		{"fr.Element.SetBytesLE", true, false, false, func(b []byte) (fr.Element, error) { e := dirtyFr(); e.SetBytesLE(b); return e, nil }},
 		{"fr.Element.SetBytesLECanonical", true, true, false, func(b []byte) (fr.Element, error) {
-			var e fr.Element
+			e := dirtyFr()
 			_, err := e.SetBytesLECanonical(b)
 			return e, err
 		}},
@@ -204,7 +204,7 @@ func c16Units(ctx *core.Ctx) []core.Unit {
 			if m := e.Marshal(); !bytes.Equal(m, wantBE[:]) {
 				vio(r, "c16.bytes", "fr.Element.Marshal", in, hx(wantBE[:]), hx(m))
 			}
-			var d1, d2, d3 fr.Element
+			d1, d2, d3 := dirtyFr(), dirtyFr(), dirtyFr()
 			d1.SetBytes(append([]byte(nil), be[:]...))
 			d2.SetBytesLE(append([]byte(nil), le[:]...))
 			_, err := d3.SetBytesLECanonical(append([]byte(nil), le[:]...))
